@@ -38,6 +38,7 @@ Count(ts) == \A t \in ts: (\E i \in 1..Len(Tags): Tags[i] = t) => TLCSet(TagIdx(
 \* register Len(Tags)+1 counts the transitions on which conformance was evaluated, +2 the mismatches
 ConfIdx == Len(Tags) + 1
 DriftIdx == Len(Tags) + 2
+AuxIdx == Len(Tags) + 3
 \* DRIFT = the implementation differs from the detailed specification on this transition.  Not a
 \* property violation: counted, the first few printed, exploration goes on.
 Conform(ok, what) ==
@@ -52,7 +53,7 @@ Init == /\ li \in {i \in 1..NL: (Hdr[i].first # 0 \/ (Hdr[i].panic # "" /\ "C14"
         /\ phys = {} /\ out = {} /\ mon = MP!InitMon
         /\ viol = (IF Hdr[li].first = 0 THEN {"C14-panic-for_layout"} ELSE {})
         /\ last = [t |-> "-", k |-> ""] /\ pos = 1
-        /\ \A i \in 1..(Len(Tags) + 2): TLCSet(i, 0)
+        /\ \A i \in 1..(Len(Tags) + 3): TLCSet(i, 0)
 
 KeySeq == Hdr[li].keys
 Keys == MP!SeqSet(KeySeq)
@@ -78,6 +79,9 @@ Do(e) ==
                 /\ mon' = MP!MonNext(Props, layout, pre, phys, mon, e, post)
                 /\ viol' = c.v \ KnownIds
                 /\ Report(c.v) /\ Count(c.a)
+                /\ ("AUX" \in Props => LET ax == MP!Aux(layout, post) IN
+                                        ax # {} => /\ TLCSet(AuxIdx, TLCGet(AuxIdx) + 1)
+                                                   /\ (TLCGet(AuxIdx) <= 5 => PrintT(<<"AUX", Hdr[li].id, ax, post>>)))
                 /\ (CheckDrift =>
                       LET sp == Step(layout, pre, e) IN
                       Conform(sp.st = post /\ sp.ev = t.ev /\ sp.rep = t.rep,
@@ -125,5 +129,5 @@ Spec == Init /\ [][Next]_vars
 NoViolation == viol = {}
 
 \* printed once at the end: the counters
-Stats == PrintT(<<"COUNTERS", [i \in 1..(Len(Tags) + 2) |-> TLCGet(i)]>>)
+Stats == PrintT(<<"COUNTERS", [i \in 1..(Len(Tags) + 3) |-> TLCGet(i)]>>)
 =============================================================================
